@@ -128,3 +128,27 @@ def futures_guarded(k: Kit, rule: str, modules=None) -> None:
                           'other waiters are never completed',
                           k.loc(fi, node), g.describe_path(w) if w else None)
     rep.floor(rule, 'future completion sites', n, 2)
+
+
+def writer_before_backlog(k: Kit, rule: str) -> None:
+    """SSHProcess._create_writer installs the redirect target before it
+    flushes the backlog to it: feed_recv_buf() ends by resuming channel
+    reading, which synchronously delivers queued packets (and EOF) through
+    data_received(); with no writer installed yet they land in the abandoned
+    pipe buffer, never reach the target and re-pause the channel for good."""
+    rep = k.rep
+    fi = k.func('process.SSHProcess._create_writer')
+    g = k.cfg(fi)
+    feeds = k.calls_named(fi, 'feed_recv_buf', 'self')
+    sets = [n.id for n, c in k.calls_named(fi, 'set_writer', 'self')]
+    rep.floor(rule, 'backlog flush sites', len(feeds), 1)
+    for n, c in feeds:
+        w = g.path(g.entry, n.id, blocked_nodes=sets)
+        rep.check(bool(sets) and w is None, rule,
+                  key(fi, 'target installed before backlog flush'),
+                  'set_writer() precedes feed_recv_buf() on every path',
+                  'the buffered backlog is flushed (which resumes channel '
+                  'reading and re-enters data_received) before the new '
+                  'target is installed: data and EOF released by the flush '
+                  'bypass the target and the channel stays paused',
+                  k.loc(fi, n), g.describe_path(w) if w else None)
